@@ -103,7 +103,17 @@ func one(rng *rand.Rand, res int, inbound bool, batch uint32, withArgs, traceErr
 		add(func(t *tally) *int64 { return &t.errs }, int64(batch))
 	}
 	add(func(t *tally) *int64 { return &t.complete }, int64(batch))
-	e.Exit()
+	if doubleExit && batch == 2 {
+		// two goroutines exit the same entry at the same time: exactly one completion must be counted
+		var w sync.WaitGroup
+		w.Add(2)
+		for k := 0; k < 2; k++ {
+			go func() { defer w.Done(); e.Exit() }()
+		}
+		w.Wait()
+	} else {
+		e.Exit()
+	}
 	if doubleExit {
 		e.Exit()
 		e.Exit(base.WithError(errors.New("late")))
